@@ -1985,7 +1985,13 @@ def gen_C03(rng, tier, changed):
             for nm, nvec in (('iter_rows_mut', r), ('iter_cols_mut', c)):
                 sh = Shadow()
                 ops = build(sh, 0, r, c, order, how='rowreshape')
-                for scr in all_nested_scripts(nvec, L, (0, 1, 2)) + all_nested_scripts(nvec, L - 1):
+                # every script of next / next_back / len up to length L; with nth(1) / nth_back(1) as further commands every
+                # script of length 3 and (thorough) a sample of those of length 4
+                extra = all_nested_scripts(nvec, 3)
+                if tier != 'quick':
+                    longer = all_nested_scripts(nvec, 4)
+                    extra += rng.sample(longer, min(len(longer), 3000))
+                for scr in all_nested_scripts(nvec, L, (0, 1, 2)) + extra:
                     ops.append(op(nm, 0, 0, rows=[scr]))
                 cases.append(Case(f'C03-x{r}x{c}o{order}{nm[5]}', ops, ('w24' if order else 'tr') if nm[5] == 'r' else ('b1' if order else 'tr')))
     # zero-sized elements, up to usize::MAX of them, every alignment: the address counters must neither wrap nor reach null
